@@ -94,13 +94,15 @@ func ToMal(n Node) types.MalType {
 	case "sym":
 		return types.Symbol{Val: n.S}
 	case "list":
-		xs := make([]types.MalType, len(n.Xs))
+		// sequences built from Go carry SPARE CAPACITY (as slices grown with append do): an operation that
+		// appends in place to a value it was given shows up as a change of that value
+		xs := make([]types.MalType, len(n.Xs), len(n.Xs)+2)
 		for i, x := range n.Xs {
 			xs[i] = ToMal(x)
 		}
 		return types.List{Val: xs}
 	case "vec":
-		xs := make([]types.MalType, len(n.Xs))
+		xs := make([]types.MalType, len(n.Xs), len(n.Xs)+2)
 		for i, x := range n.Xs {
 			xs[i] = ToMal(x)
 		}
